@@ -61,7 +61,7 @@ def planted(seed, n):
                          "nested", "nested_part", "nested_arrange", "nested_filter_kw", "nested_case",
                          "not_aggregated", "unknown_c", "unknown_tbl", "reselect_hidden", "rename_dup", "rename_dup2",
                          "slice_grouped", "marker_outside", "marker_nested", "join_grouped", "join_same_origin",
-                         "join_suffix_dup", "join_nonbool_on", "join_window_on", "union_names", "union_grouped",
+                         "join_suffix_dup", "join_suffix_dup_renamed", "join_nonbool_on", "join_window_on", "union_names", "union_grouped",
                          "group_hidden"])
         where = r.choice(["top", "arith", "case", "cast"])
         exp = None
@@ -148,7 +148,7 @@ def planted(seed, n):
         elif rule == "marker_nested":
             st = ["arrange", [["ord", ["fn", "add", [["ord", a, True, None], ["lit", 1]]], False, None]]]
             exp = "TypeError"
-        elif rule in ("join_grouped", "join_same_origin", "join_suffix_dup", "join_nonbool_on", "join_window_on",
+        elif rule in ("join_grouped", "join_same_origin", "join_suffix_dup", "join_suffix_dup_renamed", "join_nonbool_on", "join_window_on",
                       "union_names", "union_grouped"):
             right = {"id": "R0", "src": p["src"], "steps": [["alias", False]]}
             ra, rid = ["col", "R0@1", "a"], ["col", "R0@1", "id"]
@@ -167,6 +167,11 @@ def planted(seed, n):
             elif rule == "join_suffix_dup":
                 steps.append(["mutate", [["a_x", ["lit", 1]]]]); k += 1
                 st = ["join", right, on, "inner", "_x"]
+                exp = "ValueError"
+            elif rule == "join_suffix_dup_renamed":
+                # the suffixed right name collides with a left column although the plain name does not exist on the left
+                steps.append(["rename", [["a", "a_x"]]]); k += 1
+                st = ["join", right, on, r.choice(["inner", "left", "full"]), "_x"]
                 exp = "ValueError"
             elif rule == "join_nonbool_on":
                 st = ["join", right, [pos(["fn", "add", [idc, rid]], where)], "inner", None]
